@@ -147,6 +147,12 @@ _d("member_var@other_module", "int", "module", "member", name="mx.ev")
 _d("member_const_str@other_module", "str", "module", "member", name="mx.es")
 _d("member_const_list@other_module", "list", "module", "member", name="mx.el", whole_only=True)
 _d("member_const_object@other_module", "object", "module", "member", name="mx.eo")
+# the same members reached through an ALIAS of the module (`al9 = mx`): the alias is an ordinary variable, the
+# members still belong to the module
+_d("member_const_via_alias@other_module", "int", "module", "member", name="al9.ec", alias=True)
+_d("member_var_via_alias@other_module", "int", "module", "member", name="al9.ev", alias=True)
+_d("member_const_str_via_alias@other_module", "str", "module", "member", name="al9.es", alias=True)
+_d("member_const_object_via_alias@other_module", "object", "module", "member", name="al9.eo", alias=True)
 # names imported with `import <name> from mx`
 _d("imported_const@other_module", "int", "module", "imported", name="ec")
 _d("imported_var@other_module", "int", "module", "imported", name="ev")
@@ -395,6 +401,9 @@ def build(decl, form, ctx, const=True, write=True):
     if how in ("member", "module"):
         files["mx.ms"] = MX_SOURCE
         top.append("import mx")
+        if decl.get("alias"):
+            top.append("al9 = mx")
+            show = "mx." + name.split(".", 1)[1] + (".f" if kind == "object" else "")
     elif how == "imported_class":
         files["mx.ms"] = MX_SOURCE
         top.append("import %s from mx" % name)
